@@ -650,11 +650,15 @@ def gen_history_x(rng, length):
     pgn = [0]
     copied = False
     seen_keys = set()
+    xmoved = set()   # data moved by this layer: the base shadow still files them under their old object
     for op in base:
         if op["op"] == "create":
             k0 = (op["kind"], op["n"])
-            if k0 in seen_keys and copied:
-                continue  # the base generator's shadow does not know the copies: it cannot tell whether this key is free
+            if k0 in seen_keys and (copied or k0 in xmoved) and not op.get("dup"):
+                # the base generator's shadow does not know the copies and the data moves of this layer: it cannot tell whether
+                # this key is free (thorough run 3: a data moved to another object survived the removal of its old parent,
+                # and the base generator re-used its identifier)
+                continue
             seen_keys.add(k0)
         ops.append(op)
         o = op["op"]
@@ -694,6 +698,7 @@ def gen_history_x(rng, length):
                     q = rng.choice(sorted(k for k in objs if k != ob))
                     live_data[ob].remove(x)
                     live_data.setdefault(q, []).append(x)
+                    xmoved.add(tuple(x))
                     ops.append({"op": "move", "e": list(x), "q": list(q)})
                 elif route != "move":
                     live_data[ob].remove(x)
@@ -706,6 +711,7 @@ def gen_history_x(rng, length):
                 q = rng.choice(sorted(k for k in objs if k != ob))
                 live_data[ob].remove(dk)
                 live_data.setdefault(q, []).append(dk)
+                xmoved.add(tuple(dk))
                 ops.append({"op": "move", "e": list(dk), "q": list(q)})
             continue
         if w == "pg_add" and cands:
